@@ -1685,7 +1685,14 @@ class EStream(Engine):
         for i in range(n):
             if i in st_at:
                 name = g.pick(['bits', 'bin', 'uint', 'int', 'hex', 'bytes', 'pad', 'oct'])
-                items.append({'t': 'tok', 'name': name, 'len': None, 'sp': g.pick(['colon', 'dtype'])})
+                t = {'t': 'tok', 'name': name, 'len': None, 'sp': g.pick(['colon', 'dtype', 'dtypes'])}
+                if t['sp'] == 'dtypes':
+                    # a length-less Dtype object that carries a scale: the filler keeps its scale
+                    if name in ('uint', 'int'):
+                        t['scale'] = g.pick([2, 3, -1])
+                    else:
+                        t['sp'] = 'dtype2'
+                items.append(t)
                 continue
             k = g.wpick([('tok', 10), ('group', 1), ('struct', 1), ('kw', 2), ('raw', 0.5)])
             if k == 'tok':
